@@ -516,3 +516,94 @@ def rule_accumulators(F, rep, rid, pred, floor, where_txt, consequence):
             rep.check(mono, rid, '%s|%s' % (g.name, render(x)[:50]), g.where(x), '%s: `%s` inside the loop lets the last element decide `%s`, which is consulted after the loop' % (g.short, render(x)[:60], v['n']), 'only raised')
     if n < floor:
         raise AnalysisBroken('%s: %d accumulating flags found in %s, %d confirmed' % (rid, n, where_txt, floor))
+
+
+def _all_paths_pass(cfg, start, target, through_ids):
+    """Every CFG path from AST node start to AST node target evaluates one of through_ids."""
+    ps, pt = cfg.block_of(start), cfg.block_of(target)
+    if ps is None or pt is None:
+        return False
+    through = set(through_ids)
+
+    def hit(blk, a, b):
+        return any(e in through for e in blk['el'][a:b])
+    if ps[0] == pt[0] and ps[1] <= pt[1]:
+        return hit(cfg.blocks[ps[0]], ps[1], pt[1])
+    if hit(cfg.blocks[ps[0]], ps[1], None):
+        return True
+    seen = set()
+    st = list(cfg.succ[ps[0]])
+    while st:
+        b = st.pop()
+        if b in seen:
+            continue
+        seen.add(b)
+        if b == pt[0]:
+            if not hit(cfg.blocks[b], 0, pt[1]):
+                return False
+            continue
+        if hit(cfg.blocks[b], 0, None):
+            continue
+        st.extend(cfg.succ[b])
+    return True
+
+
+def stale_loop_state(f):
+    """Locals declared before a for / range-for loop that are used ONLY inside that loop, written in its body, and read in the body on some
+    path that has not passed a write in the same iteration: the read sees what the previous iteration left behind (a per-iteration local
+    hoisted out of the loop).  Yields (var node, loop, exposed reads)."""
+    def is_write(r):
+        p = f.parent(r)
+        if p is None:
+            return False
+        c = p.get('c', [])
+        return bool(c) and c[0] is r and ((p.get('k') == 'Bin' and p.get('op') == '=') or (p.get('k') == 'Call' and p.get('opc') == '='))
+    loops = [l for l in f.walk() if l.get('k') in ('For', 'RangeFor') and f.enclosing_lambda(l) is None]
+    if not loops:
+        return
+    cfg = f.cfg()
+    if cfg is None:
+        return
+    for v in f.walk():
+        if v.get('k') != 'Var' or f.enclosing_lambda(v) is not None:
+            continue
+        refs = None
+        for L in loops:
+            body = role(L, 'body')
+            if body is None or L.get('l', 0) < v.get('l', 0):
+                continue
+            inside = {x['i'] for x in walk(L)}
+            if v['i'] in inside:
+                continue
+            if refs is None:
+                refs = [r for r in f.walk() if r.get('k') == 'Ref' and r.get('d') == v['d']]
+            if not refs or any(r['i'] not in inside for r in refs):
+                continue
+            binside = {x['i'] for x in walk(body)}
+            writes = [r for r in refs if is_write(r) and r['i'] in binside]
+            reads = [r for r in refs if not is_write(r) and r['i'] in binside]
+            if not writes or not reads:
+                continue
+            fs = body['c'][0] if body.get('k') == 'Compound' and body.get('c') else body
+            wids = [f.parent(w)['i'] for w in writes]
+            yield v, L, [r for r in reads if not _all_paths_pass(cfg, fs, r, wids)]
+
+
+def rule_loop_state(F, rep, rid, pred, where_txt):
+    from facts import AnalysisBroken, fixture_funcs
+    rep.rule(rid, 'in %s a local that lives across the iterations of a for loop but is used only inside it is written in every iteration before it is read there: otherwise an iteration works with what the previous one left behind '
+                  '(the per-iteration search result of one required units is reused for all the following ones)' % where_txt)
+    fx = fixture_funcs('loopstate')
+    bad = [x for x in stale_loop_state(fx['fixtureLoopStateBad']) if x[2]]
+    good = [x for x in stale_loop_state(fx['fixtureLoopStateGood']) if x[2]]
+    if len(bad) != 1 or good:
+        raise AnalysisBroken('%s: the detector does not separate the two fixture functions (sa/fixtures/src/loopstate.cpp)' % rid)
+    n = 0
+    for g in F.funcs.values():
+        if not pred(g):
+            continue
+        for v, L, exposed in stale_loop_state(g):
+            n += 1
+            rep.check(not exposed, rid, '%s|%s' % (g.short.split('::')[-1], v['n']), g.where(v), '%s: `%s` is declared before the loop at line %s, used only inside it, and read at line(s) %s before it is assigned in that iteration: it still holds the value of the previous iteration'
+                      % (g.short, v['n'], L.get('l'), sorted({r.get('l') for r in exposed})), 'assigned before it is read in each iteration')
+    rep.ok(rid, 'scan', None, '%d loop-carried locals used only inside their loop in %s (fixture: 1 of 2 functions flagged, as expected)' % (n, where_txt))
